@@ -1,0 +1,59 @@
+// Copyright 2025 The Go Authors. All rights reserved.
+// Use of this source code is governed by a BSD-style
+// license that can be found in the LICENSE file.
+
+//go:build verif
+
+package http2
+
+// Contract for the deductive verifier in /verif (govc), property C14 (small part): a header block is
+// handed to the frame writer in order, completely and in pieces of at most 16384 bytes; exactly the
+// first piece is flagged first (it goes out as HEADERS, the others as CONTINUATION) and exactly the
+// last piece is flagged last (END_HEADERS).
+
+//@ func splitHeaderBlock(ctx, headerBlock, fn) (err)
+//@   trustcall fn
+//@   ghost emitted += len($1) at call fn
+//@   assert at call fn: samebase($1, old(headerBlock)) && suboff($1, old(headerBlock)) == ghost(emitted) && 1 <= len($1) && len($1) <= 16384 && ghost(emitted) + len($1) <= len(old(headerBlock))
+//@   assert at call fn: $2 == (ghost(emitted) == 0)
+//@   assert at call fn: $3 == (ghost(emitted) + len($1) == len(old(headerBlock)))
+//@   ensures err == nil ==> ghost(emitted) == len(headerBlock)
+//@   noframe
+//@   loop 1 invariant samebase(headerBlock, old(headerBlock)) && suboff(headerBlock, old(headerBlock)) == ghost(emitted) && len(headerBlock) == len(old(headerBlock)) - ghost(emitted) && 0 <= ghost(emitted) && ghost(emitted) <= len(old(headerBlock))
+//@   loop 1 invariant first == (ghost(emitted) == 0)
+
+// The callbacks splitHeaderBlock is used with: the first piece goes out as HEADERS (or
+// PUSH_PROMISE) carrying exactly that piece, END_HEADERS exactly when it is the last piece, and
+// END_STREAM as the response requested; every other piece goes out as CONTINUATION on the same
+// stream with END_HEADERS exactly on the last one. Frame serialisation itself is C06.
+
+//@ func (*writeResHeaders).writeHeaderBlock(w, ctx, frag, firstFrag, lastFrag) (err)
+//@   havoccalls
+//@   requires w != nil
+//@   assert at call WriteHeaders: firstFrag && $p.StreamID == old(w.streamID) && $p.EndStream == old(w.endStream) && $p.EndHeaders == lastFrag && len($p.BlockFragment) == len(frag) && samebase($p.BlockFragment, frag) && suboff($p.BlockFragment, frag) == 0
+//@   assert at call WriteContinuation: !firstFrag && $streamID == old(w.streamID) && $endHeaders == lastFrag && len($headerBlockFragment) == len(frag) && samebase($headerBlockFragment, frag) && suboff($headerBlockFragment, frag) == 0
+//@   partial nopanic, pre
+//@   noframe
+//@
+//@ func (*writePushPromise).writeHeaderBlock(w, ctx, frag, firstFrag, lastFrag) (err)
+//@   havoccalls
+//@   requires w != nil
+//@   assert at call WritePushPromise: firstFrag && $p.StreamID == old(w.streamID) && $p.PromiseID == old(w.promisedID) && $p.EndHeaders == lastFrag && len($p.BlockFragment) == len(frag) && samebase($p.BlockFragment, frag) && suboff($p.BlockFragment, frag) == 0
+//@   assert at call WriteContinuation: !firstFrag && $streamID == old(w.streamID) && $endHeaders == lastFrag && len($headerBlockFragment) == len(frag) && samebase($headerBlockFragment, frag) && suboff($headerBlockFragment, frag) == 0
+//@   partial nopanic, pre
+//@   noframe
+
+// The client writes its request header block the same way, in pieces of at most maxFrameSize.
+//
+//@ func (*ClientConn).writeHeaders(cc, streamID, endStream, maxFrameSize, hdrs) (err)
+//@   havoccalls
+//@   requires cc != nil && maxFrameSize >= 1
+//@   ghost emitted += len($p.BlockFragment) at call WriteHeaders
+//@   ghost emitted += len($headerBlockFragment) at call WriteContinuation
+//@   ghost headers += 1 at call WriteHeaders
+//@   assert at call WriteHeaders: ghost(emitted) == 0 && ghost(headers) == 0 && $p.StreamID == streamID && $p.EndStream == endStream && samebase($p.BlockFragment, old(hdrs)) && suboff($p.BlockFragment, old(hdrs)) == 0 && 1 <= len($p.BlockFragment) && len($p.BlockFragment) <= maxFrameSize && $p.EndHeaders == (len($p.BlockFragment) == len(old(hdrs)))
+//@   assert at call WriteContinuation: ghost(emitted) > 0 && ghost(headers) == 1 && $streamID == streamID && samebase($headerBlockFragment, old(hdrs)) && suboff($headerBlockFragment, old(hdrs)) == ghost(emitted) && 1 <= len($headerBlockFragment) && len($headerBlockFragment) <= maxFrameSize && $endHeaders == (ghost(emitted) + len($headerBlockFragment) == len(old(hdrs)))
+//@   loop 1 invariant cc != nil && samebase(hdrs, old(hdrs)) && suboff(hdrs, old(hdrs)) == ghost(emitted) && len(hdrs) == len(old(hdrs)) - ghost(emitted) && 0 <= ghost(emitted) && ghost(emitted) <= len(old(hdrs))
+//@   loop 1 invariant first == (ghost(emitted) == 0) && ghost(headers) == ite(first, 0, 1)
+//@   partial nopanic, pre
+//@   noframe
